@@ -1250,8 +1250,11 @@ package yqlib
 //@   ensures @anchors-only-removed {C13} anchorsOnlyRemoved()
 //@   ensures @merge-needs-a-map {C13} implies(alias != nil && old(alias.Kind) != MappingNode, result != nil)
 //@   ensures implies(result == nil, nodeList(newContent.MatchingNodes))
+//@   ensures @a-map-is-never-merged-into-itself {C13,C11} implies(alias != nil && alias == node, result != nil)
 //@   loop 1:
-//@     invariant anchorsOnlyRemoved() && nodeList(newContent.MatchingNodes)
+//@     invariant anchorsOnlyRemoved() && nodeList(newContent.MatchingNodes) && (ancestor == node || node != alias)
+//@   loop 2:
+//@     invariant anchorsOnlyRemoved() && nodeList(newContent.MatchingNodes) && node != alias
 
 //@ func overrideEntry
 //@   props C13
